@@ -96,6 +96,19 @@ def gen_params(rng, model):
             if rng.random() < 0.5:
                 rng.shuffle(items)  # the interval's key order need not be the slate's listing order
             intervals[b][s] = dict(items)
+    def reorder(d):
+        items = list(d.items())
+        if rng.random() < 0.5:
+            rng.shuffle(items)
+        return dict(items)
+
+    if nb >= 2:
+        # the parameter dictionaries need not list the blocs / slates in the same order
+        cohesion = reorder({b: reorder(row) for b, row in cohesion.items()})
+        intervals = reorder({b: reorder(d) for b, d in intervals.items()})
+        if model != "CambridgeSampler":
+            slates = reorder(slates)
+            props = reorder(props)
     case = {"slates": slates, "props": props, "cohesion": cohesion, "intervals": intervals}
     n = sum(sizes)
     if model == "short_name_PlackettLuce":
